@@ -23,7 +23,24 @@
 #include "stream.h"
 #include "vf.h"
 
+#include "c01_refcodec.h"   /* independent reference decoder for the four COBS framings (C01's) */
+
 const char *vf_name = "c12_sreply";
+
+#define FMT_PLAIN 4   /* no message encoder: messages are lines, terminated by the newline of the stream */
+#define NFMT 5
+static int fmt;   /* RC_COBS, RC_COBS_R, RC_ZPE, RC_ZPE_R, FMT_PLAIN */
+static const int enc_code[NFMT] = { MPT_ENUM(EncodingCobs), MPT_ENUM(EncodingCobsInline),
+                                    MPT_ENUM(EncodingCobs) | MPT_ENUM(EncodingCompress), MPT_ENUM(EncodingCobsInline) | MPT_ENUM(EncodingCompress), 0 };
+static const char *cnt_exact[NFMT] = { "exact:cobs", "exact:cobs_r", "exact:cobs_zpe", "exact:cobs_zpe_r", "exact:plain" };
+static const char *fname[NFMT] = { "cobs", "cobs_r", "cobs_zpe", "cobs_zpe_r", "plain" };
+/* message bytes of line separated streams: no line separators inside */
+static void plainify(uint8_t *p, size_t n)
+{
+	if (fmt != FMT_PLAIN) return;
+	for (size_t i = 0; i < n; i++) if (p[i] == '\n' || p[i] == '\r') p[i] = 0x55;
+}
+static size_t frame_bound(size_t n) { return fmt == FMT_PLAIN ? n + 2 : rc_frame_bound(n); }
 
 #define MAXMSG 40
 #define MSGLEN 300
@@ -34,24 +51,13 @@ static size_t cap;
 static char hx1[260], hx2[260];
 static const char *cur = "";
 
-static long cobs_decode(const uint8_t *src, size_t len, uint8_t *dst)
-{
-	size_t o = 0, i = 0;
-	while (i < len) {
-		uint8_t code = src[i++];
-		if (!code) return -1;
-		for (uint8_t k = 1; k < code; k++) { if (i >= len) return -1; dst[o++] = src[i++]; }
-		if (code < 0xff && i < len) dst[o++] = 0;
-	}
-	return (long) o;
-}
 /* the transport: remove finished bytes from the front (they are final, also in the middle of a message),
  * collect them and compare every complete frame */
 static uint8_t acc[8192];
 static size_t acclen;
 static void drain(void)
 {
-	static uint8_t dec[4096];
+	static uint8_t dec[2 * 8192 + 8];
 	size_t done = srm._wd._state.done;
 	if (done) {
 		VF_CHECK(done <= srm._wd.data.len && acclen + done <= sizeof(acc), "model:sreply:state", "%s: encoder reports %zu finished bytes, queue holds %zu", cur, done, srm._wd.data.len);
@@ -61,18 +67,20 @@ static void drain(void)
 		srm._wd._state.done = 0;
 	}
 	for (;;) {
-		uint8_t *z = memchr(acc, 0, acclen);
+		uint8_t *z = memchr(acc, fmt == FMT_PLAIN ? '\n' : 0, acclen);
 		size_t fl;
-		long dl;
+		size_t dl = 0;
+		int rc;
 		if (!z) break;
 		fl = (size_t) (z - acc);
-		dl = cobs_decode(acc, fl, dec);
-		VF_CHECK(dl >= 0, "model:sreply:undecodable-frame", "%s: frame %s", cur, vf_hex(hx1, sizeof(hx1), acc, fl));
+		if (fmt == FMT_PLAIN) { memcpy(dec, acc, fl); dl = fl; rc = RC_OK; }
+		else rc = rc_decode(fmt, acc, fl, dec, &dl);
+		VF_CHECK(rc == RC_OK || rc == RC_EMPTY, "model:sreply:undecodable-frame", "%s: %s frame %s", cur, fname[fmt], vf_hex(hx1, sizeof(hx1), acc, fl));
 		vf_count("monitor:frame-compared", 1);
 		VF_CHECK(ntaken < nexp, "model:sreply:unexpected-frame", "%s: the stream delivered frame %s although every accepted message was already taken (split or refused reply?)",
-		         cur, vf_hex(hx1, sizeof(hx1), dec, (size_t) dl));
-		VF_CHECK((size_t) dl == expect[ntaken].n && !memcmp(dec, expect[ntaken].d, (size_t) dl), "model:sreply:frame-content",
-		         "%s: frame %d is %s, accepted message was %s", cur, ntaken, vf_hex(hx1, sizeof(hx1), dec, (size_t) dl), vf_hex(hx2, sizeof(hx2), expect[ntaken].d, expect[ntaken].n));
+		         cur, vf_hex(hx1, sizeof(hx1), dec, dl));
+		VF_CHECK(dl == expect[ntaken].n && !memcmp(dec, expect[ntaken].d, dl), "model:sreply:frame-content",
+		         "%s: frame %d is %s, accepted message was %s", cur, ntaken, vf_hex(hx1, sizeof(hx1), dec, dl), vf_hex(hx2, sizeof(hx2), expect[ntaken].d, expect[ntaken].n));
 		ntaken++;
 		fl++;
 		memmove(acc, acc + fl, acclen - fl);
@@ -80,10 +88,122 @@ static void drain(void)
 	}
 }
 
-void vf_case(uint64_t idx, vf_rng *r)
+static void open_stream(uint8_t **mem, size_t capacity)
+{
+	static const MPT_STRUCT(stream) init = MPT_STREAM_INIT;
+	struct iovec out;
+	*mem = vf_xalloc(capacity);
+	out.iov_base = *mem; out.iov_len = capacity;
+	srm = init;
+	vf_at("mpt_stream_memory");
+	if (mpt_stream_memory(&srm, 0, &out) < 0) vf_inconclusive("mpt_stream_memory failed");
+	srm._wd._enc = enc_code[fmt] ? mpt_message_encoder(enc_code[fmt]) : 0;
+	if (enc_code[fmt] && !srm._wd._enc) vf_inconclusive("no %s encoder", fname[fmt]);
+}
+static void expect_add(const uint8_t *a, size_t an, const uint8_t *b, size_t bn)
+{
+	memcpy(expect[nexp].d, a, an);
+	if (bn) memcpy(expect[nexp].d + an, b, bn);
+	expect[nexp].n = an + bn;
+	nexp++;
+}
+
+/*
+ * exactly-full states: the reply is first sent into a large stream of the same framing to learn its frame
+ * length F; then the same reply goes into a stream with F-1 (delimiter does not fit any more), F or F-2 bytes.
+ */
+static void case_exact(uint64_t idx, vf_rng *r)
+{
+	uint8_t *mem, hdr[4], body[260], *part[2], small[4];
+	size_t idlen = 1 + vf_below(r, 4), total, plen[2], F;
+	struct iovec cont[1];
+	MPT_STRUCT(message) msg = MPT_MESSAGE_INIT;
+	int delta, ret, ret2;
+	static const size_t lens[] = { 0, 1, 2, 5, 13, 29, 30, 31, 60, 120, 220, 221, 222, 223, 250, 253, 254, 255 };
+	ssize_t p;
+
+	(void) idx;
+	nexp = 0; ntaken = 0; acclen = 0;
+	total = vf_chance(r, 1, 2) ? lens[vf_below(r, sizeof(lens) / sizeof(*lens))] : vf_below(r, 256);
+	vf_bytes(r, hdr, idlen); hdr[0] |= 0x80;
+	vf_bytes(r, body, total);
+	if (vf_chance(r, 1, 3)) for (size_t i = 0; i < total; i++) if (!body[i]) body[i] = 0x55;   /* zero free */
+	if (total) body[total - 1] = (uint8_t) (1 + vf_below(r, 4));    /* low last byte: no tail inlining */
+	else hdr[idlen - 1] = (uint8_t) (1 + vf_below(r, 4)), hdr[0] |= 0x80;
+	plainify(hdr, idlen); plainify(body, total);
+	plen[0] = vf_below(r, (uint32_t) total + 1); plen[1] = total - plen[0];
+	part[0] = vf_xalloc(plen[0]); part[1] = vf_xalloc(plen[1]);
+	if (plen[0]) memcpy(part[0], body, plen[0]);
+	if (plen[1]) memcpy(part[1], body + plen[0], plen[1]);
+	msg.base = part[0]; msg.used = plen[0];
+	cont[0].iov_base = part[1]; cont[0].iov_len = plen[1];
+	msg.cont = cont; msg.clen = 1;
+	vf_fp_u64(0xE0 + (uint64_t) fmt); vf_fp(hdr, idlen); vf_fp(body, total);
+
+	/* probe */
+	open_stream(&mem, 1024);
+	cap = 1024;
+	cur = "probe";
+	vf_at("mpt_stream_reply");
+	vf_count("mpt_stream_reply", 1);
+	ret = mpt_stream_reply(&srm, idlen, hdr, &msg);
+	VF_CHECK(ret >= 0, "model:sreply:refused-with-room", "%s reply of %zu bytes refused (%d) by an empty 1024 byte stream", fname[fmt], idlen + total, ret);
+	F = srm._wd.data.len;
+	expect_add(hdr, idlen, body, total);
+	drain();
+	VF_CHECK(ntaken == 1 && !acclen, "model:sreply:frame-missing", "probe: %d frames, %zu bytes left", ntaken, acclen);
+	if (srm._wd._enc) srm._wd._enc(&srm._wd._state, 0, 0);
+	vf_xfree(mem, 1024);
+
+	/* the same reply into F + delta bytes */
+	delta = vf_chance(r, 2, 3) ? -1 : vf_chance(r, 1, 2) ? 0 : -2;
+	if ((long) F + delta < 1) delta = 0;
+	nexp = 0; ntaken = 0; acclen = 0;
+	cap = F + (size_t) ((long) delta);
+	open_stream(&mem, cap);
+	cur = "exact reply";
+	vf_at("mpt_stream_reply");
+	vf_count("mpt_stream_reply", 1);
+	if (delta == -1) vf_count(cnt_exact[fmt], 1);
+	vf_count(delta == -1 ? "exact:delimiter-does-not-fit" : delta == 0 ? "exact:just-fits" : "exact:two-short", 1);
+	ret = mpt_stream_reply(&srm, idlen, hdr, &msg);
+	vf_log("%s reply of %zu bytes (frame %zu) into %zu bytes = %d", fname[fmt], idlen + total, F, cap, ret);
+	if (ret >= 0) { expect_add(hdr, idlen, body, total); vf_count("reply:accepted", 1); }
+	else vf_count("reply:refused", 1);
+	if (delta < 0) vf_count(ret < 0 ? "exact:refused" : "exact:accepted-shorter-frame", 1);
+	drain();
+	/* the refusal left nothing behind: a small reply and a message of the owner go through unharmed */
+	small[0] = hdr[0]; small[1] = 0x21; small[2] = 0x22; small[3] = 0x23;
+	if (cap >= frame_bound(2) + 2) {
+		cur = "reply after the exact one";
+		vf_count("mpt_stream_reply", 1);
+		ret2 = mpt_stream_reply(&srm, 2, small, 0);
+		vf_log("small reply afterwards = %d", ret2);
+		vf_count("monitor:reply-after-refusal", 1);
+		VF_CHECK(ret2 >= 0, "model:sreply:refused-with-room", "after a %s reply (return %d) into a %zu byte stream that was then emptied, a 2 byte reply is refused (%d)",
+		         ret < 0 ? "refused" : "accepted", ret, cap, ret2);
+		expect_add(small, 2, 0, 0);
+		drain();
+		cur = "own message after the exact one";
+		p = mpt_stream_push(&srm, 2, small + 2);
+		if (p == 2 && mpt_stream_push(&srm, 0, 0) >= 0) expect_add(small + 2, 2, 0, 0);
+		else vf_fail("model:sreply:own-message-refused", "after the replies a 2 byte message of the owner is refused (%zd) by the emptied %zu byte stream", p, cap);
+		drain();
+	}
+	cur = "end";
+	vf_count("monitor:sequence-complete", 1);
+	VF_CHECK(!acclen, "model:sreply:unterminated-frame", "bytes %s left without delimiter", vf_hex(hx1, sizeof(hx1), acc, acclen));
+	VF_CHECK(ntaken == nexp, "model:sreply:frame-missing", "%d messages were accepted, the stream delivered %d frames", nexp, ntaken);
+	if (srm._wd._enc) srm._wd._enc(&srm._wd._state, 0, 0);
+	vf_xfree(mem, cap);
+	vf_xfree(part[0], plen[0]); vf_xfree(part[1], plen[1]);
+	vf_nontrivial();
+	vf_sample("%s: reply of %zu bytes, frame %zu, into %zu bytes = %d", fname[fmt], idlen + total, F, cap, ret);
+}
+
+static void case_history(uint64_t idx, vf_rng *r)
 {
 	static const size_t caps[] = { 8, 12, 16, 24, 32, 48, 64, 100, 200, 300 };
-	struct iovec out;
 	uint8_t *mem;
 	size_t idlen = 1 + vf_below(r, 4);
 	int nops = vf_range(r, 3, 14), open_own = 0, refused = 0, accepted = 0, retried = 0;
@@ -91,20 +211,13 @@ void vf_case(uint64_t idx, vf_rng *r)
 	size_t ownlen = 0;
 	char desc[500];
 	size_t dl;
-	static const MPT_STRUCT(stream) init = MPT_STREAM_INIT;
 
 	(void) idx;
 	nexp = 0; ntaken = 0; acclen = 0;
 	cap = caps[vf_below(r, sizeof(caps) / sizeof(*caps))];
-	mem = vf_xalloc(cap);
-	out.iov_base = mem; out.iov_len = cap;
-	srm = init;
-	vf_at("mpt_stream_memory");
-	if (mpt_stream_memory(&srm, 0, &out) < 0) vf_inconclusive("mpt_stream_memory failed");
-	srm._wd._enc = mpt_message_encoder(MPT_ENUM(EncodingCobs));
-	if (!srm._wd._enc) vf_inconclusive("no COBS encoder");
-	vf_fp_u64(cap); vf_fp_u64(idlen);
-	dl = (size_t) snprintf(desc, sizeof(desc), "capacity=%zu idlen=%zu:", cap, idlen);
+	open_stream(&mem, cap);
+	vf_fp_u64(cap); vf_fp_u64(idlen); vf_fp_u64((uint64_t) fmt);
+	dl = (size_t) snprintf(desc, sizeof(desc), "%s capacity=%zu idlen=%zu:", fname[fmt], cap, idlen);
 
 	for (int i = 0; i < nops && nexp < MAXMSG - 2; i++) {
 		uint32_t c = vf_below(r, 100);
@@ -117,11 +230,12 @@ void vf_case(uint64_t idx, vf_rng *r)
 			int parts = 1 + (int) vf_below(r, 3), ret, usemsg = !vf_chance(r, 1, 6);
 			vf_bytes(r, hdr, idlen);
 			hdr[0] |= 0x80;
+			plainify(hdr, idlen);
 			for (int k = 0; k < parts; k++) {
 				plen[k] = vf_chance(r, 1, 4) ? 0 : 1 + vf_below(r, vf_chance(r, 1, 4) ? 120 : 14);
 				if (total + plen[k] > MSGLEN - 8) plen[k] = 0;
 				part[k] = vf_xalloc(plen[k]);
-				if (plen[k]) { vf_bytes(r, part[k], plen[k]); memcpy(flat + total, part[k], plen[k]); }
+				if (plen[k]) { vf_bytes(r, part[k], plen[k]); plainify(part[k], plen[k]); memcpy(flat + total, part[k], plen[k]); }
 				total += plen[k];
 			}
 			if (!usemsg) total = 0;
@@ -129,13 +243,13 @@ void vf_case(uint64_t idx, vf_rng *r)
 			for (int k = 1; k < parts; k++) { cont[k - 1].iov_base = part[k]; cont[k - 1].iov_len = plen[k]; }
 			msg.cont = parts > 1 ? cont : 0; msg.clen = (size_t) parts - 1;
 			freeb = srm._wd.data.max - srm._wd.data.len;
-			need = idlen + total + (idlen + total) / 254 + 2 + 4;   /* COBS size plus slack */
+			need = frame_bound(idlen + total) + 2;   /* frame size bound plus slack */
 			vf_fp_u64(0x10); vf_fp(hdr, idlen); vf_fp(flat, total); vf_fp_u64((uint64_t) parts);
 			cur = "mpt_stream_reply";
 			vf_at("mpt_stream_reply");
 			vf_count("mpt_stream_reply", 1);
 			if (need > freeb) vf_count("reply:may-not-fit", 1);
-			if (open_own) vf_count("reply:during-unfinished-message", 1);
+			if (open_own) vf_count(fmt == FMT_PLAIN ? "reply:during-unfinished-plain-message" : "reply:during-unfinished-message", 1);
 			if (usemsg && parts > 1) vf_count("reply:fragmented-message", 1);
 			if (usemsg && !plen[0] && total) vf_count("reply:empty-first-fragment", 1);
 			ret = mpt_stream_reply(&srm, idlen, hdr, usemsg ? &msg : 0);
@@ -177,6 +291,7 @@ void vf_case(uint64_t idx, vf_rng *r)
 			ssize_t p;
 			if (srm._wd.data.max - srm._wd.data.len < n + 3) { drain(); continue; }
 			vf_bytes(r, own, n);
+			plainify(own, n);
 			cur = "mpt_stream_push";
 			vf_at("mpt_stream_push");
 			vf_count("mpt_stream_push", 1);
@@ -210,7 +325,7 @@ void vf_case(uint64_t idx, vf_rng *r)
 	VF_CHECK(!acclen, "model:sreply:unterminated-frame", "bytes %s left without delimiter after every message was finished", vf_hex(hx1, sizeof(hx1), acc, acclen));
 	VF_CHECK(ntaken == nexp, "model:sreply:frame-missing", "%d messages were accepted, the stream delivered %d frames", nexp, ntaken);
 	/* encoder state is harness-visible only; the memory belongs to the harness */
-	srm._wd._enc(&srm._wd._state, 0, 0);
+	if (srm._wd._enc) srm._wd._enc(&srm._wd._state, 0, 0);
 	vf_xfree(mem, cap);
 	if (refused) vf_count("history:with-refused-reply", 1);
 	if (retried) vf_count("history:with-retried-reply", 1);
@@ -218,4 +333,11 @@ void vf_case(uint64_t idx, vf_rng *r)
 	vf_sample("%s  => %d accepted, %d refused, %d retried", desc, accepted, refused, retried);
 }
 
-uint64_t vf_cases(void) { return vf_thorough ? 300000 : 30000; }
+void vf_case(uint64_t idx, vf_rng *r)
+{
+	fmt = (int) (idx % NFMT);
+	if ((idx / NFMT) % 3 == 2) case_exact(idx, r);
+	else case_history(idx, r);
+}
+
+uint64_t vf_cases(void) { return vf_thorough ? 600000 : 60000; }
